@@ -59,7 +59,7 @@ type InfoSpec struct {
 // syncer is blocked inside an app / state-provider call) or right after an app
 // call returned (racing with the syncer on purpose).
 type Action struct {
-	At      string `json:"at"`    // apphash | offer | apply | after-apply
+	At      string `json:"at"`    // gate (after the first adverts, before the pool is consulted) | apphash | offer | apply | after-apply
 	Call    int    `json:"call"`  // call number of that kind; -1 = every call of that kind except the first
 	Kind    string `json:"kind"`  // await-fetched (wait until every chunk index has been requested once and every answer but the canary's is in) | race (Count peers deliver chunk cur+Rel at the same moment, each with its own bytes, by concurrent Reactor.ReceiveEnvelope calls; Rel = 99: one such batch per index) | push | push-async (hold does not wait for the delivery) | stop | readv | flush | reconnect (leave if still connected, come back under the same node key, advertise Snap)
 	Peer    int    `json:"peer"`  // liar index; -1 = sender of the chunk of this call, -2 = sender most recently rejected by the app, -3 = some other honest connected peer
@@ -95,6 +95,10 @@ type Scenario struct {
 	// that the fetcher waiting for it keeps re-requesting it every ChunkRequestTimeout: a logical clock
 	Liveness bool `json:"liveness,omitempty"`
 	Canary   bool `json:"canary,omitempty"`
+	// formats family: nobody serves chunks of these catalog entries (the syncer's two-minute chunk timeout
+	// then rejects the snapshot); LongTimeout stretches the child's watchdogs accordingly
+	SilentFor   []int `json:"silent_for,omitempty"`
+	LongTimeout bool  `json:"long_timeout,omitempty"`
 }
 
 // content is the true content of chunk i of the (only) genuine snapshot at
@@ -138,7 +142,7 @@ func has(ss []string, s string) bool {
 	return false
 }
 
-var recipeNames = []string{"plain", "s18", "dup", "blacklist", "infolie", "retrysnap", "vanish", "spfault", "many", "noise", "fooled", "comeback", "orphan", "race", "refetch"}
+var recipeNames = []string{"plain", "s18", "dup", "blacklist", "infolie", "retrysnap", "vanish", "spfault", "many", "noise", "fooled", "comeback", "orphan", "race", "refetch", "formats"}
 
 // genScenario draws scenario number idx.
 func genScenario(r *rand.Rand, verifSeed, sub int64, stream string, idx int) *Scenario {
@@ -153,7 +157,7 @@ func genScenario(r *rand.Rand, verifSeed, sub int64, stream string, idx int) *Sc
 	}
 	// recipes: the first few cases walk through the list so that every tier sees each one
 	nrec := 1 + r.Intn(3)
-	if p := recipeNames[idx%len(recipeNames)]; p == "orphan" || p == "refetch" {
+	if p := recipeNames[idx%len(recipeNames)]; p == "orphan" || p == "refetch" || p == "formats" {
 		nrec = 1 // a fixed cast of peers: kept free of other recipes when it is the primary one
 	}
 	if recipeNames[idx%len(recipeNames)] == "race" {
@@ -539,6 +543,60 @@ func genScenario(r *rand.Rand, verifSeed, sub int64, stream string, idx int) *Sc
 		}
 		s.App.ApplyScript[k] = ov
 		s.Actions = append(s.Actions, Action{At: "apply", Call: k, Kind: "await-fetched"})
+	}
+	if rc("formats") && s.Recipes[0] == "formats" {
+		// the pool holds three snapshots of format 1 at different heights and a lower-ranked one of format 2;
+		// one of the format-1 snapshots leaves the pool in an ordinary way, LATER the app answers
+		// REJECT_FORMAT for another one: no format-1 snapshot may be offered from then on
+		variant := (idx / len(recipeNames)) % 6
+		if variant == 5 && idx < 128 {
+			variant = 3 // the two-minute chunk timeout only in the thorough tier
+		}
+		s.Discovery = "gate0"
+		s.Catalog = nil
+		hA := 9 + uint64(r.Intn(4))
+		hB := hA - 1 - uint64(r.Intn(2))
+		hC := hB - 1 - uint64(r.Intn(2))
+		hD := hC - 1 - uint64(r.Intn(2))
+		A := addTrue(hA, 1, uint32(1+r.Intn(2)))
+		B := addTrue(hB, 1, uint32(1+r.Intn(2)))
+		C := addTrue(hC, 1, uint32(1+r.Intn(2)))
+		D := addTrue(hD, 2, uint32(1+r.Intn(3)))
+		s.Peers = []PeerSpec{
+			{Default: "honest", Adverts: [][]int{{A}}},
+			{Default: "honest", Adverts: [][]int{{B, C}}},
+			{Default: "honest", Adverts: [][]int{{D}}},
+		}
+		s.App.OfferBySnap = map[int]string{B: "REJECT_FORMAT"}
+		switch variant {
+		case 0: // the app refuses A
+			s.App.OfferBySnap[A] = "REJECT"
+			if r.Intn(2) == 0 {
+				s.Peers[1].Adverts[0] = []int{A, B, C}
+			}
+		case 1: // A's only peer disconnects before the pool is consulted
+			s.Actions = append(s.Actions, Action{At: "gate", Call: 0, Kind: "stop", Peer: 0})
+			s.Actions = append(s.Actions, Action{At: "apphash", Call: -1, Kind: "reconnect", Peer: 0, Snap: -1})
+		case 2: // C's only peer disconnects; the format is then rejected at the very first offer (A)
+			s.Peers[1].Adverts[0] = []int{B}
+			s.Peers = append(s.Peers, PeerSpec{Default: "honest", Adverts: [][]int{{C}}})
+			s.App.OfferBySnap = map[int]string{A: "REJECT_FORMAT"}
+			s.Actions = append(s.Actions, Action{At: "gate", Call: 0, Kind: "stop", Peer: 3})
+			s.Actions = append(s.Actions, Action{At: "apphash", Call: -1, Kind: "reconnect", Peer: 3, Snap: -1})
+		case 3: // A is rejected because the state provider cannot produce its state (same pool.Reject as a chunk timeout)
+			s.SPFaults[[]string{"State#0", "Commit#0"}[r.Intn(2)]] = "err"
+		case 4: // A's last (only) peer is rejected as sender
+			s.App.OfferBySnap[A] = "REJECT_SENDER"
+		case 5: // A's chunks never come: the syncer's chunk timeout rejects it
+			s.SilentFor = []int{A}
+			s.LongTimeout = true
+		}
+		np = len(s.Peers)
+		// everything of format 1 is advertised again and again afterwards
+		s.Actions = append(s.Actions, Action{At: "apphash", Call: -1, Kind: "readv", Peer: 1, Snap: -1})
+		if r.Intn(2) == 0 {
+			s.Actions = append(s.Actions, Action{At: "offer", Call: -1, Kind: "readv", Peer: 1, Snap: -1})
+		}
 	}
 	if rc("spfault") {
 		m := []string{"AppHash", "State", "Commit"}[r.Intn(3)]
